@@ -78,6 +78,14 @@ def fn(args, r):
     return ["func", list(args), r]
 
 
+def _mentions(x, name):
+    if isinstance(x, list):
+        if len(x) == 2 and x[0] == "var" and x[1] == name:
+            return True
+        return any(_mentions(y, name) for y in x)
+    return False
+
+
 class Fn:
     def __init__(self, rng, idx):
         self.rng = rng
@@ -90,6 +98,8 @@ class Fn:
         self.applied = set()
         self.funlocals = []
         self.stmts = []
+        self.forced = {}          # parameters whose type is written in the source whatever the version: name -> (Folang text, type term)
+        self.selfcalls = 0
 
     def fresh(self, base="t"):
         self.n += 1
@@ -130,7 +140,7 @@ class Fn:
              "fst": "any", "snd": "any", "map": "sl", "append": "sl", "push": "sl", "applyf": "any", "rec": "named", "ctor": "named",
              "ipair": "tup", "iid": "any", "iswap": "tup", "iconst": "int", "concat": "str", "sprintf": "str",
              "gbox": "named", "gsome": "named", "iwrap": "named", "iunbox": "int", "ioptlen": "int",
-             "ifx": "any", "pipe": "any", "pappmap": "sl", "applyl": "any", "fold": "int", "filter": "sl"}
+             "ifx": "any", "pipe": "any", "pappmap": "sl", "applyl": "any", "fold": "int", "filter": "sl", "selfcall": "any"}
 
     def generic_value(self, d, arg_want):
         """an expression of type IBox<t> / IOpt<t> (kind chosen by the caller through arg_want = ("IBox"|"IOpt", base or None))"""
@@ -296,6 +306,23 @@ class Fn:
             b, tb, xb = E()
             self.eq(ta, INT)
             return "iconst %s %s" % (self.atom(a), self.atom(b)), INT, call("iconst", xa, xb)
+        if o == "selfcall":
+            # a recursive call: every argument has the type of the corresponding parameter, the value the type of the function's result
+            if self.selfcalls >= 2 or not hasattr(self, "params"):
+                return self.expr(d - 1, want)
+            self.selfcalls += 1
+            texts, xs = [], []
+            for q, tq in zip(self.params, self.ptypes):
+                if q in self.funparams or rng.random() < 0.5:
+                    a, ta, xa = q, self.env[q], V(q)
+                    if q in self.unused:
+                        self.unused.remove(q)
+                else:
+                    a, ta, xa = self.expr(min(d - 1, 1), tq if tq in (INT, STR, BOOL) else None)
+                self.eq(ta, tq)
+                texts.append(self.atom(a))
+                xs.append(xa)
+            return "%s %s" % (self.name, " ".join(texts)), ["var", "ret"], ["self", xs]
         if o == "ifx":
             c, tc, xc = E(BOOL)
             a, ta, xa = E(want)
@@ -380,6 +407,16 @@ class Fn:
             if rng.random() < 0.2:
                 self.funparams.add(p)
         lines = []
+        if rng.random() < 0.25:
+            # an annotated parameter of the union type IU and a match on it (the target of a match must have a known type)
+            u = rng.choice(self.params)
+            if u not in self.funparams:
+                self.forced[u] = ("IU", ["named", "IU", []])
+                self.env[u] = ["named", "IU", []]
+                self.ptypes[self.params.index(u)] = ["named", "IU", []]
+                if u in self.unused:
+                    self.unused.remove(u)
+                self.match_stmt(u, lines)
         for _ in range(rng.randint(0, 3)):
             r = rng.random()
             if r < 0.2:
@@ -441,15 +478,59 @@ class Fn:
         self.fin = xfin
         return self
 
+    def match_stmt(self, u, lines):
+        """let v = match u with | IC1 n -> .. | IC2 p -> .. | IC3 -> ..  (some rules, then a default when not all cases are listed)"""
+        rng = self.rng
+        cases = [("IC1", INT), ("IC2", tup(INT, STR)), ("IC3", None)]
+        rng.shuffle(cases)
+        keep = rng.randint(1, 3)
+        v = self.fresh("v")[1]
+        arms, texts, t0 = [], [], None
+        bodies = cases[:keep] + ([("_", None)] if keep < 3 else [])
+        for cname, pt in bodies:
+            bind = ""
+            if pt is not None and rng.random() < 0.7:
+                bind = self.fresh("w")[1]
+                self.env[bind] = pt
+            b, tb, xb = self.expr(1, t0 if t0 in (INT, STR, BOOL) else None)
+            if bind:
+                del self.env[bind]
+                if bind in self.unused:
+                    self.unused.remove(bind)
+                if not _mentions(xb, bind):
+                    bind = "_"                       # (Go rejects an unused rule variable)
+            if t0 is None:
+                t0 = tb
+            else:
+                self.eq(t0, tb)
+            if cname == "_":
+                texts.append("  | _ -> %s" % b)
+                dflt = [xb]
+            else:
+                texts.append("  | %s%s -> %s" % (cname, (" " + bind) if pt is not None else "", b))
+                arms.append([cname, "" if bind == "_" else bind, xb])
+        if keep == 3:
+            dflt = []
+        lines.append("let %s =" % v)
+        lines.append("  match %s with" % u)
+        lines.extend(texts)
+        self.stmts.append(["let", v, ["match", u, arms, dflt]])
+        self.env[v] = t0
+        self.unused.append(v)
+
     def spec(self):
         """ast: the function as abstract syntax (spec/FoInferGen.tla generates the constraints from it); eqs/params/res: the constraint
         problem as this generator derived it (double entry: TLC checks that both give the same principal type)"""
-        return {"name": self.name, "eqs": self.eqs, "params": self.ptypes, "res": self.res,
-                "ast": {"name": self.name, "params": self.params, "stmts": self.stmts, "fin": self.fin}}
+        ast = {"name": self.name, "params": self.params, "stmts": self.stmts, "fin": self.fin}
+        if self.forced:
+            ast["ptypes"] = [[q, self.forced[q][1]] for q in self.params if q in self.forced]
+        return {"name": self.name, "eqs": self.eqs + [[["var", "ret"], self.res]], "params": self.ptypes, "res": self.res, "ast": ast}
 
     def text(self, annots=None):
         """annots: dict param -> Folang type text (annotated parameters)"""
-        annots = annots or {}
+        annots = dict(annots or {})
+        for q, (txt, _) in getattr(self, "forced", {}).items():
+            annots[q] = txt
         ps = " ".join(("(%s:%s)" % (p, annots[p])) if p in annots else p for p in self.params)
         return "let %s %s =\n%s\n\n" % (self.name, ps, "\n".join("  " + l for l in self.body))
 
@@ -643,12 +724,83 @@ class FldFn(Fn):
         return self
 
 
+class MatchFn(Fn):
+    """directed family: the rules of a match return parameters / literals / recursive calls in random order - every rule has the
+    type of the first one; a recursive function's result type is that of its body (also when only the recursion mentions it)"""
+
+    def build(self):
+        rng = self.rng
+        n = rng.randint(2, 4)
+        self.params = ["a%d" % i for i in range(n)]
+        self.ptypes = []
+        for q in self.params:
+            t = ["var", "p_" + q]
+            self.env[q] = t
+            self.ptypes.append(t)
+        u = self.params[0]
+        self.forced[u] = ("IU", ["named", "IU", []])
+        self.env[u] = self.ptypes[0] = ["named", "IU", []]
+        others = self.params[1:]
+        recursive = rng.random() < 0.5
+        cases = [("IC1", INT), ("IC2", tup(INT, STR)), ("IC3", None)]
+        rng.shuffle(cases)
+        keep = rng.randint(2, 3)
+        rules = cases[:keep] + ([("_", None)] if keep < 3 else [])
+        # what the rules return: at most one of them fixes the type (a literal / the payload), the others are parameters or recursive calls
+        kinds = ["fix"] + [rng.choice(["param", "param", "self" if recursive else "param"]) for _ in rules[1:]]
+        rng.shuffle(kinds)
+        if recursive and "self" not in kinds:
+            kinds[rng.choice([i for i, k in enumerate(kinds) if k != "fix"])] = "self"        # (one rule always fixes the type)
+        base = rng.choice([INT, STR, BOOL])
+        arms, texts, dflt, t0 = [], [], [], None
+        for (cname, pt), kind in zip(rules, kinds):
+            bind = ""
+            if kind == "fix":
+                if cname == "IC1" and base == INT and rng.random() < 0.5:
+                    bind = "w1"
+                    b, tb, xb = "w1", INT, V("w1")
+                else:
+                    b, xb = {"int": ("7", LIT["int"]), "string": ('"s"', LIT["str"]), "bool": ("true", LIT["bool"])}[base[1]]
+                    tb = base
+            elif kind == "param":
+                q = rng.choice(others)
+                b, tb, xb = q, self.env[q], V(q)
+            else:
+                args = [u] + [rng.choice(others) for _ in others]
+                for a, tq in zip(args, self.ptypes):
+                    self.eq(self.env[a], tq)
+                inner = "%s %s" % (self.name, " ".join(args))
+                tb = ["var", "ret"]
+                xb = ["self", [V(a) for a in args]]
+                self.selfcalls += 1
+                if base in (INT, STR) and rng.random() < 0.5:
+                    # two recursive calls under + : both operands have one type (int or string, + itself does not say which), which is
+                    # also the type of the sum - only the recursion mentions the result here
+                    b, xb = "(%s) + (%s)" % (inner, inner), call("same+", xb, ["self", [V(a) for a in args]])
+                else:
+                    b = inner
+            if t0 is None:
+                t0 = tb
+            else:
+                self.eq(t0, tb)
+            pat = "_" if cname == "_" else cname + ((" " + (bind or "_")) if pt is not None else "")
+            texts.append("| %s -> %s" % (pat, b))
+            if cname == "_":
+                dflt = [xb]
+            else:
+                arms.append([cname, bind, xb])
+        self.body = ["match %s with" % u] + texts
+        self.fin = ["match", u, arms, dflt]
+        self.res = t0
+        return self
+
+
 def generate(rng, n):
-    return [(MergeFn(rng, i) if i % 5 == 4 else FldFn(rng, i) if i % 5 == 3 else Fn(rng, i)).build() for i in range(n)]
+    return [(MergeFn(rng, i) if i % 5 == 4 else FldFn(rng, i) if i % 5 == 3 else MatchFn(rng, i) if i % 10 == 2 else Fn(rng, i)).build() for i in range(n)]
 
 
 # ------------------------------------------------------------------------------------------ abstract syntax -> Folang text
-CALLFMT = {"int+": "{0} + {1}", "str+": "{0} + {1}", "cmp": "{0} < {1}", "eq": "{0} = {1}", "{IR1}": "{{A={0}; B={1}}}", "{IR2}": "{{Name={0}; Vals={1}}}", "{IR3}": "{{C={0}; D={1}}}",
+CALLFMT = {"int+": "{0} + {1}", "same+": "{0} + {1}", "str+": "{0} + {1}", "cmp": "{0} < {1}", "eq": "{0} = {1}", "{IR1}": "{{A={0}; B={1}}}", "{IR2}": "{{Name={0}; Vals={1}}}", "{IR3}": "{{C={0}; D={1}}}",
            "{IBox}": "{{Val={0}; Tag={1}}}"}
 
 
